@@ -30,12 +30,12 @@ PROPS = {
     },
     "C19": {
         "file": "C19.v",
-        "claim": "Theorems over EstimatorModel (bit-exact Avalanche, doorkeeper words, packed 4-bit counters): lower bound min(count,15) <= estimate <= 15 between aging events for every recording sequence and sketch size, monotonicity, exact halving on aging, indices in range; nibble arithmetic proved for every 64-bit word. Ghost lists: executable GhostModel tied by correspondence plus FIFO-window monitor (refinement proof pending, stated as partial).",
-        "note": "Trusted: Coq kernel, extraction, driver, harness, VerifEstimator/VerifGhost wrappers. The ghost clause is conformance-level for now.",
+        "claim": "Theorems over EstimatorModel (bit-exact Avalanche, doorkeeper words, packed 4-bit counters): lower bound min(count,15) <= estimate <= 15 between aging events for every recording sequence and sketch size, monotonicity, exact halving on aging, indices in range; nibble arithmetic proved for every 64-bit word. Ghost lists: GhostModel (ring + open-addressed index with deletion by cluster re-insertion) is proved to refine an abstract FIFO ring for every capacity, index size and operation sequence and for an arbitrary probe hash; the FIFO-window characterisation (last n accepted adds, not removed since) is a theorem; tied to the real ghostQueue by correspondence plus an independent FIFO-window monitor.",
+        "note": "Trusted: Coq kernel, extraction, driver, harness, VerifEstimator/VerifGhost wrappers. ",
         "streams": [S("est", 60, 800), S("ghost", 150, 3000)],
         "assumptions": [
             "fingerprints enter through keyhash.Avalanche, modelled bit-exactly (64-bit wrap explicit) and compared on every trace",
-            "ghost-list clause: decided by correspondence of GhostModel with the real ghostQueue and by the FIFO-window monitor; the refinement proof GhostModel -> abstract ring is not finished (partial)",
+            "ghost lists: index size m = 2^k >= 2n (what newGhostQueue allocates; compared in the C16 stream)",
             "the adaptive controller ticked by tickObservation (tick/adaptSize/tuneAdmission) is outside the estimator model; it does not touch sketch or doorkeeper",
         ],
         "trusted": ["Modelled, not verified: Go slices as lists with 0 default outside the range (ruled out by c19_indices_in_range)"],
